@@ -29,13 +29,20 @@ NOCST = [i for i, v in enumerate(VARS) if v[3] == 0]
 def vset(ids):
     return "%dul" % sum(1 << i for i in set(ids))
 
-def rot(rng, pool, k):
-    """k variants, at least one read and two writes"""
-    pool_r = [i for i in pool if i in READS]; pool_w = [i for i in pool if i in WRITES]
-    out = [rng.choice(pool_r)] + rng.sample(pool_w, min(2, len(pool_w)))
-    rest = [i for i in pool if i not in out]
-    out += rng.sample(rest, max(0, min(k - len(out), len(rest))))
-    return out
+class Rot:
+    """hands out variants in rotation so that, within a group, every write overload (operator x operand kind) and every read
+    variant of the pool is instantiated — nothing is left to chance"""
+    def __init__(self, rng, pool):
+        self.r = [i for i in pool if i in READS]; self.w = [i for i in pool if i in WRITES]
+        self.ri = rng.randrange(max(len(self.r), 1)); self.wi = rng.randrange(max(len(self.w), 1))
+    def take(self, k):
+        nr = min(len(self.r), 1 if k <= 3 else 2)
+        out = []
+        for _ in range(nr):
+            out.append(self.r[self.ri % len(self.r)]); self.ri += 1
+        for _ in range(min(k - nr, len(self.w))):
+            out.append(self.w[self.wi % len(self.w)]); self.wi += 1
+        return out
 
 def vlanes(isa, sz):
     return max(LANES[isa] // sz, 1)
@@ -57,74 +64,80 @@ def sizes_around(V, rng, k):
     rest = [x for x in base if x not in must]
     return (must + rng.sample(rest, min(len(rest), max(0, k - len(must)))))[:max(k, len(must))]
 
+def dims_for(cls, V, rng):
+    """(a, b) with a*b in the size class: vo = multiple of V, vt = above V and not a multiple, to = below V"""
+    if V == 1:
+        return rng.choice([(2, 3), (3, 2), (1, 4)])
+    if cls == "vo":
+        return rng.choice([(2, V), (V, 2), (1, V), (V, 1)] if V > 2 else [(2, 2), (3, 2), (2, 3)])
+    if cls == "vt":
+        return rng.choice([(3, V + 1), (V + 1, 3)] if V != 3 else [(2, 5), (5, 2)]) if rng.random() < 0.7 else rng.choice([(1, V + 1), (2 * V + 1, 1)])
+    return rng.choice([(1, V - 1), (V - 1, 1)] + ([(2, (V - 1) // 2), ((V - 1) // 2, 2)] if V >= 5 else []))
+
 def single_calls(rng, isa, sz, tier, writes_only=False):
-    """seeded longer index tensors for every overload; one instantiation serves several index vectors"""
+    """seeded longer index tensors: for every overload x size class (vector-only / vector+tail / tail-only) one read and one
+    write instantiation, each serving several index vectors (duplicate-free arbitrary order, with repeats, descending)"""
     V = vlanes(isa, sz)
     T = "Sym%d" % sz
     calls = []
-    pool = WRITES if writes_only else list(range(NV))
     nrep = 2 if tier == "quick" else 4
-    def variant(mode_free):
-        return rng.choice(pool)
+    rounds = 1 if tier == "quick" else 3
     itys = list(ITY.values())
-    # flat1
-    for M in sizes_around(V, rng, 4 if tier == "quick" else 8):
-        N = max(M, 5) + rng.randint(0, 6)
-        vi = variant(True); ity = rng.choice(itys)
-        for rep in range(nrep):
-            xs = pick_indices(rng, M, N, rep % 3)
-            calls.append('rv::flat1<%s,%s,%d,%d,%d>("%s");' % (T, ity, N, M, vi, idx_str(xs)))
-    # flat2
-    for _ in range(2 if tier == "quick" else 6):
-        R, C = rng.randint(2, 6), rng.randint(2, 7)
-        tot = rng.choice(sizes_around(V, rng, 8))
-        P = rng.choice([d for d in range(1, tot + 1) if tot % d == 0]); Q = tot // P
-        if R * C < P * Q: R = (P * Q + C - 1) // C
-        vi = variant(True); ity = rng.choice(itys)
-        for rep in range(nrep):
-            xs = pick_indices(rng, P * Q, R * C, rep % 3)
-            calls.append('rv::flat2<%s,%s,%d,%d,%d,%d,%d>("%s");' % (T, ity, R, C, P, Q, vi, idx_str(xs)))
+    rots = {True: Rot(rng, list(range(NV))), False: Rot(rng, list(range(NV)))}    # 1-D view class / n-D view class
+    def variants(one_d=False):
+        r = rots[one_d]
+        w = r.w[r.wi % len(r.w)]; r.wi += 1
+        if writes_only: return [w]
+        rd = r.r[r.ri % len(r.r)]; r.ri += 1
+        return [rd, w]
     def other(lo, avoid):
-        """an extent >= lo that differs from everything in `avoid` (so that a wrong stride cannot go unnoticed)"""
         x = lo + rng.randint(0, 3)
         while x in avoid: x += 1
         return x
-    # index x index
-    for _ in range(5 if tier == "quick" else 14):
-        tot = rng.choice(sizes_around(V, rng, 8) + [V * 2 + 2, 6])
-        M = rng.choice([d for d in range(1, tot + 1) if tot % d == 0]); N = tot // M
-        R = other(max(M, 2), {M, N}); C = other(max(N, 2), {R, M, N, 1})
-        vi = variant(True); i0t, i1t = rng.choice(itys), rng.choice(itys)
-        for rep in range(nrep):
-            a = pick_indices(rng, M, R, rep % 3); b = pick_indices(rng, N, C, (rep + (rep > 1)) % 3)
-            calls.append('rv::ii<%s,%s,%s,%d,%d,%d,%d,%d>("%s","%s");' % (T, i0t, i1t, R, C, M, N, vi, idx_str(a), idx_str(b)))
-    # index x integer, integer x index
-    for swap in (0, 1):
-        for M in rng.sample(sizes_around(V, rng, 8), 2 if tier == "quick" else 5):
-            if not swap: R = other(max(M, 2), {M}); C = other(2, {R, M, 1})
-            else: C = other(max(M, 2), {M, 1}); R = other(2, {C, M})
-            bound = C if swap else R
-            vi = variant(True); i0t, i1t = rng.choice(itys), rng.choice(["int", "long", "unsigned long", "short"])
-            for rep in range(nrep):
-                a = pick_indices(rng, M, bound, rep % 3)
-                hi = R if swap else C
-                num = hi - 1 if rep == 0 else rng.randrange(1, hi)
-                calls.append('rv::in_<%s,%s,%s,%d,%d,%d,%d,%d>("%s",%d);' % (T, i0t, i1t, R, C, M, swap, vi, idx_str(a), num))
-    # index x fseq, fseq x index
-    for kind in ("if_", "fi"):
-        for q in range(3 if tier == "quick" else 8):
-            D = rng.randint(3, 9)                      # extent of the axis the fseq runs over
-            F = rng.randrange(0 if q else 1, D - 1); S = rng.randint(1, 3) if q != 1 else 2
-            L = rng.choice([-1, rng.randint(F + 1, D)])
-            fsz = ((D if L < 0 else L) - F + S - 1) // S
-            tot = rng.choice(sizes_around(V, rng, 8))
-            K = max(1, tot // fsz)                     # length of the index tensor
-            O = other(max(K, 2), {K, D, fsz, 1})       # extent of the other axis
-            R, C = (O, D) if kind == "if_" else (D, O)
-            vi = variant(True); ity = rng.choice(itys)
-            for rep in range(nrep):
-                a = pick_indices(rng, K, O, rep % 3)
-                calls.append('rv::%s<%s,%s,%d,%d,%d,%d,%d,%d,%d>("%s");' % (kind, T, ity, R, C, K, F, L, S, vi, idx_str(a)))
+    classes = ["vo", "vt", "to"] if V > 1 else ["vo"]
+    for _ in range(rounds):
+        for cls in classes:
+            # flat1
+            a, b = dims_for(cls, V, rng); M = a * b
+            N = other(M + 1, {M}); ity = rng.choice(itys)
+            for vi in variants(True):
+                for rep in range(nrep):
+                    calls.append('rv::flat1<%s,%s,%d,%d,%d>("%s");' % (T, ity, N, M, vi, idx_str(pick_indices(rng, M, N, rep % 3))))
+            # flat2
+            P, Q = dims_for(cls, V, rng)
+            R = rng.randint(2, 5); C = other((P * Q + R - 1) // R + 1, {R, P, Q}); ity = rng.choice(itys)
+            for vi in variants():
+                for rep in range(nrep):
+                    calls.append('rv::flat2<%s,%s,%d,%d,%d,%d,%d>("%s");' % (T, ity, R, C, P, Q, vi, idx_str(pick_indices(rng, P * Q, R * C, rep % 3))))
+            # index x index
+            M, N = dims_for(cls, V, rng)
+            R = other(max(M, 2), {M, N}); C = other(max(N, 2), {R, M, N, 1}); i0t, i1t = rng.choice(itys), rng.choice(itys)
+            for vi in variants():
+                for rep in range(nrep):
+                    x = pick_indices(rng, M, R, rep % 3); y = pick_indices(rng, N, C, (rep + (rep > 1)) % 3)
+                    calls.append('rv::ii<%s,%s,%s,%d,%d,%d,%d,%d>("%s","%s");' % (T, i0t, i1t, R, C, M, N, vi, idx_str(x), idx_str(y)))
+            # index x integer, integer x index
+            for swap in (0, 1):
+                a, b = dims_for(cls, V, rng); M = a * b
+                if not swap: R = other(max(M, 2), {M}); C = other(2, {R, M, 1})
+                else: C = other(max(M, 2), {M, 1}); R = other(2, {C, M})
+                i0t, i1t = rng.choice(itys), rng.choice(["int", "long", "unsigned long", "short"])
+                for vi in variants():
+                    for rep in range(nrep):
+                        x = pick_indices(rng, M, C if swap else R, rep % 3); hi = R if swap else C
+                        num = hi - 1 if rep == 0 else rng.randrange(1, hi)
+                        calls.append('rv::in_<%s,%s,%s,%d,%d,%d,%d,%d>("%s",%d);' % (T, i0t, i1t, R, C, M, swap, vi, idx_str(x), num))
+            # index x fseq, fseq x index
+            for kind in ("if_", "fi"):
+                K, fsz = dims_for(cls, V, rng)
+                F = rng.randint(0, 2); S = rng.randint(1, 3)
+                end = F + (fsz - 1) * S + 1                 # smallest `last` giving fsz elements
+                D = end + rng.choice([0, 0, 1, 2]); L = -1 if (D - F + S - 1) // S == fsz and rng.random() < 0.6 else end
+                O = other(max(K, 2), {K, D, fsz, 1})
+                R, C = (O, D) if kind == "if_" else (D, O); ity = rng.choice(itys)
+                for vi in variants():
+                    for rep in range(nrep):
+                        calls.append('rv::%s<%s,%s,%d,%d,%d,%d,%d,%d,%d>("%s");' % (kind, T, ity, R, C, K, F, L, S, vi, idx_str(pick_indices(rng, K, O, rep % 3))))
     if not writes_only:
         # the view as the source of an assignment to a 2-D / 3-D range view (two-index and multi-index members)
         for q in range(3 if tier == "quick" else 8):
@@ -133,15 +146,15 @@ def single_calls(rng, isa, sz, tier, writes_only=False):
             R = other(M, {M, N}); C = other(N, {R, M, N})
             dyn, cst = q % 2, (q // 2) % 2
             for rep in range(nrep):
-                a = pick_indices(rng, M, R, rep % 3); b = pick_indices(rng, N, C, (rep + 1) % 3)
-                calls.append('rv::to2d<%s,%s,%s,%d,%d,%d,%d,%d,%d>("%s","%s");' % (T, rng.choice(itys[:2]), itys[q % 3], R, C, M, N, dyn, cst, idx_str(a), idx_str(b)))
+                x = pick_indices(rng, M, R, rep % 3); y = pick_indices(rng, N, C, (rep + 1) % 3)
+                calls.append('rv::to2d<%s,%s,%s,%d,%d,%d,%d,%d,%d>("%s","%s");' % (T, rng.choice(itys[:2]), itys[q % 3], R, C, M, N, dyn, cst, idx_str(x), idx_str(y)))
         for q in range(2 if tier == "quick" else 6):
             P2 = [V, V + 1][q % 2] if q < 2 else rng.randint(1, V + 2)
             P0, P1 = rng.randint(1, 3), rng.randint(2, 3)
             D0, D1, D2 = other(P0, {P0}), other(P1, {P1}), other(P2, {P2})
             for rep in range(nrep):
-                a = pick_indices(rng, P0 * P1 * P2, D0 * D1 * D2, rep % 3)
-                calls.append('rv::to3d<%s,%s,%d,%d,%d,%d,%d,%d,%d,%d>("%s");' % (T, itys[q % 3], D0, D1, D2, P0, P1, P2, 1 - q % 2, q % 2, idx_str(a)))
+                x = pick_indices(rng, P0 * P1 * P2, D0 * D1 * D2, rep % 3)
+                calls.append('rv::to3d<%s,%s,%d,%d,%d,%d,%d,%d,%d,%d>("%s");' % (T, itys[q % 3], D0, D1, D2, P0, P1, P2, 1 - q % 2, q % 2, idx_str(x)))
     return calls
 
 def exhaustive_calls(rng, isa, sz, tier, writes_only=False):
@@ -149,31 +162,52 @@ def exhaustive_calls(rng, isa, sz, tier, writes_only=False):
     calls = []
     pool = WRITES if writes_only else list(range(NV))
     itys = list(ITY.values())
-    nvar = 5 if tier == "quick" else 10
+    nvar = 4 if tier == "quick" else 10
     per = 2 if tier == "quick" else 4
+    rot1, rot2 = Rot(rng, pool), Rot(rng, pool)       # 1-D view class, n-D view class
     for N in range(1, 6):
         for M in range(1, 4):
-            ids = rot(rng, pool, nvar) if not writes_only else rng.sample(pool, min(nvar, len(pool)))
-            calls.append("rv::flat1_all<%s,%s,%d,%d,%s>(%d,%du);" % (T, rng.choice(itys), N, M, vset(ids), per, rng.randrange(NV)))
+            calls.append("rv::flat1_all<%s,%s,%d,%d,%s>(%d,%du);" % (T, rng.choice(itys), N, M, vset(rot1.take(nvar)), per, rng.randrange(NV)))
     shapes = [(2, 3, 3, 2), (3, 2, 2, 3), (2, 3, 2, 3), (3, 2, 1, 3), (1, 5, 1, 3), (5, 1, 3, 1), (2, 2, 3, 3), (2, 3, 3, 1)]
     for (R, C, M, N) in (shapes[:2] + rng.sample(shapes[2:], 2) if tier == "quick" else shapes):
-        ids = rot(rng, pool, nvar) if not writes_only else rng.sample(pool, min(nvar, len(pool)))
-        calls.append("rv::ii_all<%s,%s,%s,%d,%d,%d,%d,%s>(%d,%du);" % (T, rng.choice(itys), rng.choice(itys), R, C, M, N, vset(ids), 1 if tier == "quick" else 3, rng.randrange(NV)))
+        calls.append("rv::ii_all<%s,%s,%s,%d,%d,%d,%d,%s>(%d,%du);" % (T, rng.choice(itys), rng.choice(itys), R, C, M, N, vset(rot2.take(nvar)), 1 if tier == "quick" else 3, rng.randrange(NV)))
+    return calls
+
+def vea_extra_calls(rng, isa, sz):
+    """vectorised-assign groups: every write variant once for the 1-D view class and once for the n-D class with a length that
+    runs the vector loop and the tail"""
+    V = vlanes(isa, sz); T = "Sym%d" % sz
+    calls = []
+    itys = list(ITY.values())
+    for k, vi in enumerate(WRITES):
+        M = [V + 1, 2 * V + 1, 2 * V][k % 3]; N = M + 1 + k % 3
+        calls.append('rv::flat1<%s,%s,%d,%d,%d>("%s");' % (T, itys[k % 3], N, M, vi, idx_str(pick_indices(rng, M, N, 0))))
+        a, b = [(3, V + 1), (V + 1, 3), (2, V)][k % 3]
+        R, C = a + 1 + k % 2, b + 2
+        if R == C: C += 1
+        calls.append('rv::ii<%s,%s,%s,%d,%d,%d,%d,%d>("%s","%s");' % (T, itys[k % 3], itys[(k + 1) % 3], R, C, a, b, vi, idx_str(pick_indices(rng, a, R, 0)), idx_str(pick_indices(rng, b, C, 2))))
     return calls
 
 def filter_calls(rng, isa_index, isa, tier, seed):
     calls = {4: [], 8: []}
     nmax = 10 if tier == "quick" else 12
+    frot = Rot(rng, NOCST)
     for n in range(1, nmax + 1):
         sz = 4 if (n + isa_index) % 2 == 0 else 8
-        ids = rot(rng, NOCST, 5 if tier == "quick" else 9)
+        ids = frot.take(4 if tier == "quick" else 9)
         per = (2 if n < 9 else 1) if tier == "quick" else (4 if n < 11 else 2)
         calls[sz].append("rv::filt_all<Sym%d,%s,%d>(%d,%du,0,0u);" % (sz, vset(ids), n, per, rng.randrange(NV)))
     V4, V8 = vlanes(isa, 4), vlanes(isa, 8)
-    for sz, dims in ((4, (3, 4)), (8, (2, 3, 3)), (4, (2, 2, 5)), (8, (5, 3)), (4, (2 * V4 + 1,)), (8, (3 * V8 + 2,)), (4, (V4, 3))):
-        ids = rot(rng, NOCST, 5 if tier == "quick" else 9)
+    seeded = ((4, (3, 4)), (8, (2, 3, 3)), (4, (2, 2, 5)), (8, (5, 3)), (4, (2 * V4 + 1,)), (8, (3 * V8 + 2,)), (4, (V4, 3)))
+    for sz, dims in (seeded[1:6] if tier == "quick" else seeded):
+        ids = frot.take(4 if tier == "quick" else 9)
         calls[sz].append("rv::filt_all<Sym%d,%s,%s>(1,%du,%d,%du);" % (sz, vset(ids), ",".join(map(str, dims)), rng.randrange(NV),
                                                                          12 if tier == "quick" else 60, seed * 31 + len(calls[sz])))
+    # a mask view as the source of a 3-D range view (teval / teval_s of the mask view)
+    for q, sz in enumerate((4, 8)):
+        V = vlanes(isa, sz)
+        for (d2, dyn) in ((V, q), (2 * V, 1 - q), (V + 1, q)):
+            calls[sz].append("rv::filt3_seeded<Sym%d,2,%d,%d,%d>(%d,%du);" % (sz, 2 + q, d2, dyn, 4 if tier == "quick" else 16, seed * 7 + d2))
     return calls
 
 def sym_groups(tier, seed):
@@ -190,11 +224,12 @@ def sym_groups(tier, seed):
         for sz in ((4, 8) if tier == "thorough" else ((4,) if ii % 2 == 0 else (8,))):
             calls = single_calls(rng, isa, sz, tier, writes_only=True)
             ex = exhaustive_calls(rng, isa, sz, tier, writes_only=True)
-            calls += ex if tier == "thorough" else [c for c in ex if ",5,3," in c or ",5,2," in c or "ii_all" in c][:4]
+            calls += ex if tier == "thorough" else [c for c in ex if ",5,3," in c or ",5,2," in c or ",3,2," in c or ",4,3," in c or "ii_all" in c][:6]
+            calls += vea_extra_calls(rng, isa, sz)
             groups.append({"key": "%s/sz%d/vea" % (isa, sz), "header": HDR, "isa": isa, "defs": VEA, "calls": calls})
     # FASTOR_DONT_VECTORISE: width 1
     calls = [c for c in exhaustive_calls(rng, "scalar", 4, tier) if ",3,2," in c or ",5,3," in c or "ii_all" in c][:4] + single_calls(rng, "scalar", 8, "quick")[:12]
-    calls += ["rv::filt_all<Sym4,%s,5>(2,3u,0,0u);" % vset(rot(rng, NOCST, 5))]
+    calls += ["rv::filt_all<Sym4,%s,5>(2,3u,0,0u);" % vset(Rot(rng, NOCST).take(5))]
     groups.append({"key": "scalar", "header": HDR, "isa": "scalar", "calls": calls})
     only = os.environ.get("VERIF_C19_ONLY")          # development aid: restrict to the groups whose key matches
     if only:
@@ -275,6 +310,9 @@ def run(tier, seed):
 def sym_call_of(inp):
     d = symrun.kv(inp)
     T = "Sym" + d["sz"]
+    if inp.startswith("fview3"):
+        call = 'rv::filt3<%s,%s,%s,%s,%s>("%s");' % (T, d["d0"], d["d1"], d["d2"], d["dyn"], d["mask"])
+        return {"key": "replay", "header": HDR, "isa": d["cfg"], "calls": [call]}
     if inp.startswith("rview2") or inp.startswith("rview3"):
         ity = [ITY.get(x, "short") for x in d["ity"].split("/")]
         if inp.startswith("rview2"):
